@@ -11,6 +11,7 @@ import FluteModel.Drv.Admit
     drop <h> | dropt <h>                         -> ok
     dropmany <h1> <h2> …  (concurrent drops)     -> ok
     add <k> | addfail <k>                        -> toi <v> | ERR
+    probe <v>          (after a refused addfail: the next value of the real allocator, INPUT) -> ok | bad-refinement
     addc <k>           (object with carousel_mode: survives its transfers until removed) -> toi <v>
     addx <k> <h> | addxfail <k> <h>              -> toi <v> | ERR
     addforeign <k> <v> (object carrying a handle reserved on ANOTHER sender started at v) -> ERR
@@ -34,6 +35,8 @@ structure St where
   tsi : Nat := 0
   random : Bool := false
   dead : Bool := false
+  /-- name of a refused `addfail` whose effect on the allocator is still to be told by `probe <v>` -/
+  pending : Option Nat := none
 
 def width? : String → Option Width
   | "16" => some .w16 | "32" => some .w32 | "48" => some .w48
@@ -136,6 +139,7 @@ def freerun (s : Sys) (tsi n : Nat) : Option (Sys × String) :=
 
 def step (st : St) (args : List String) : St × String :=
   if st.dead then (st, "DEAD") else
+  if st.pending.isSome ∧ args.head? ≠ some "probe" then (st, "bad-op") else
   match args with
   | ["new", w, ini, tsi] =>
     match width? w, nat? tsi with
@@ -188,9 +192,40 @@ def step (st : St) (args : List String) : St × String :=
   | ["addc", k] => match nat? k with
     | some k => runOp st (.add k true true)
     | none => (st, "bad-op")
-  | ["addfail", k] => match nat? k with
-    | some k => runOp st (.add k false false)
-    | none => (st, "bad-op")
+  | ["addfail", k] =>
+    -- `add_object` refuses the object (after the TOI could have been allocated).  Whether the refused call consumed
+    -- a TOI value is an allocation POLICY that C15 does not constrain (the code of today allocates, then releases):
+    -- the model waits for `probe <v>` = the value the real allocator hands out next, and follows it.
+    match st.sys, nat? k with
+    | some s, some k =>
+      if (s.objs.find? k).isSome ∨ st.pending.isSome then (st, "bad-op") else ({ st with pending := some k }, "ERR")
+    | _, _ => (st, "bad-op")
+  | ["probe", v] =>
+    match st.sys, st.pending, nat? v with
+    | some s, some k, some v =>
+      let st0 := { st with pending := none }
+      -- policy A: allocate + release (`Op.add k false`), policy B: nothing (`Op.addEarlyErr`); then the probe itself
+      -- (allocate a handle, drop it) must return `v`
+      let tryFrom (s0 : Sys) : Option Sys :=
+        match s0.step (.alloc 2000001) with
+        | .ok (s1, .toi v', _) =>
+          if v' = v then
+            match s1.step (.drop 2000001) with
+            | .ok (s2, _, _) => some s2
+            | _ => none
+          else none
+        | _ => none
+      let afterA : Option Sys :=
+        match s.step (.add k false false) with
+        | .ok (sA, _, _) => tryFrom sA
+        | _ => none
+      match afterA with
+      | some s2 => ({ st0 with sys := some s2 }, "ok")
+      | none =>
+        match tryFrom s with
+        | some s2 => ({ st0 with sys := some s2 }, "ok")
+        | none => (st0, "bad-refinement")
+    | _, _, _ => (st, "bad-op")
   | ["addx", k, h] => match nat? k, nat? h with
     | some k, some h => runOp st (.addWith k h true)
     | _, _ => (st, "bad-op")
